@@ -18,20 +18,26 @@ from .. import enc_expr as X
 from .. import gen_expr as GE
 
 PROP = "C10"
-RULE = ("type-directed random expressions (depth<=5, pool of 3-5 names; joint / conditional / interventional / "
+RULE = ("(a) structured stream over a common pool of factors (harness/gen_expr.py struct_*): Sums over parent-less joint "
+        "leaves in every range mode (equal / superset / subset / partial / miss) x {P, PP[pi1], PP[pi2]} x wrapper "
+        "(bare, product, numerator, denominator, outer sum), interventional and starred children, leaves that only appear "
+        "after canonicalising the summand; compound fractions whose division cross-multiplies into x/x, x/1, 1/x or leaves "
+        "shared / repeated factors; products that only appear after canonicalisation; first-child ties; sibling factors "
+        "differing in one deep position; pairs of independent presentations of the same ratio for canonical_expr_equal. "
+        "(b) type-directed random expressions (depth<=5, pool of 3-5 names; joint / conditional / interventional / "
         "population-tagged leaves, -X/+X values; sums whose ranges cover / contain / are contained in / overlap / miss the "
         "children; fractions of fractions; One/Zero inside products and sums; raw dataclass objects, i.e. unsorted and "
         "nested products) x orderings (None, shuffled covering, non-covering) for canonicalize; pairs (expression, "
         "presentation-shuffle / independent / mutated expression) for canonical_expr_equal; `den` cross-check of the Lean "
-        "specification against the Python evaluator. 70% of the stream is WellScoped (the property's quantifier, judged by "
-        "the oracle), 30% is wild (multi-world leaves, duplicate names, bound +X, Q-factors: correspondence only). "
-        "A case is non-trivial when the expression has depth>=3 and at least one Sum or Fraction and its canonical form "
-        "differs structurally from the input.")
+        "specification against the Python evaluator. 70% of the random stream is WellScoped (the property's quantifier, "
+        "judged by the oracle), 30% is wild (multi-world leaves, duplicate names, bound +X, Q-factors: correspondence only). "
+        "The branches reached on the real canonicaliser are counted as hit_* tags. A case is non-trivial when the "
+        "expression has depth>=3 and at least one Sum or Fraction and its canonical form differs structurally from the input.")
 ASSUMPTIONS = [
     "canon_den is proved for WellScoped expressions (single-world leaves with pairwise distinct names, intervened names disjoint from the leaf's own variables, no +X bound by an enclosing Sum, no Q-factor) and orderings covering the event names, under ProbFamily env and non-vanishing denominators (DenNonzero, implied by Env.Positive for expressions without Zero() in a denominator); multi-world joint terms are outside the quantifier (Sum.simplify's own FIXME)",
     "the Lean theorems are about the hand-written model Y0.Model.Canon/Dsl; the tie to canonicalize_expr.py/dsl.py is this run's correspondence check (sampling)",
     "Python set/frozenset iteration order is modelled as sorted order; populations are plain variables; Sum ranges are plain variables (what Sum.__post_init__ and the builders produce)",
-    "the oracle decides semantic equality by identity testing on 2-3 random positive environments x 3 valuations (exact rationals): it cannot flag a correct rewrite, it can miss an incorrect one with small probability",
+    "the oracle decides semantic equality by identity testing on 2 generic positive environments (drawn per case from a per-process pool of 12 cached mixture-of-products environments, a separate distribution per population and per world) x 3 random valuations (exact rationals): it cannot flag a correct rewrite, it can miss an incorrect one with small probability",
 ]
 LEANCHECK_MODULES = ["Y0.Model.Dsl", "Y0.Model.Canon", "Y0.Props.C10"]
 EXHAUSTIVE = {"quick": False, "thorough": False}
